@@ -44,6 +44,8 @@ struct FVis {
 		op("owning<int>");
 		multi::array<int, D, Alloc<int>> C(v); for(int e : C.elements()) mix(std::uint64_t(e)); mix(std::uint64_t(C == v)); mix(std::uint64_t(C != v));
 		{ multi::array<int, D, Alloc<int>> C2(C); C2.elements()[0] += 1; mix(std::uint64_t(C < C2)); mix(std::uint64_t(C2 <= C)); mix(std::uint64_t(C2() == C())); }
+		op("==(other-extents)"); { std::vector<L> be = m.size; be[0] += 1; multi::array<int, D, Alloc<int>> Big(make_extensions<D>(be), 0); { L q = 0; auto ce = C.elements().begin(); for(auto& e : Big.elements()) { e = (q < C.num_elements()) ? *ce : 0; if(q < C.num_elements()) ++ce; ++q; } }  // equal common flat prefix
+			mix(std::uint64_t(C == Big)); mix(std::uint64_t(Big == C)); mix(std::uint64_t(C != Big)); multi::array_ref<int, D, Ptr<int>> CR(C.extensions(), C.data_elements()), BR(Big.extensions(), Big.data_elements()); mix(std::uint64_t(CR == BR)); mix(std::uint64_t(BR == CR)); mix(std::uint64_t(C() == Big())); }
 		op("algorithms"); std::sort(C.begin(), C.end()); for(int e : C.elements()) mix(std::uint64_t(e)); { auto&& el = C.elements(); std::reverse(el.begin(), el.end()); std::rotate(el.begin(), el.begin() + el.size() / 3, el.end()); } for(int e : C.elements()) mix(std::uint64_t(e));
 		op("reextent"); { std::vector<L> ne = m.size; ne[0] += 1; if(D > 1) ne[std::size_t(D - 1)] = std::max<L>(1, ne[std::size_t(D - 1)] - 1); C.reextent(make_extensions<D>(ne), 77); for(int e : C.elements()) mix(std::uint64_t(e)); C.reextent(make_extensions<D>(ne)); C.reextent(make_extensions<D>(m.size)); for(auto s : tuple_to_vec(C.sizes())) mix(std::uint64_t(s)); }
 		op("view-assign"); { multi::array<int, D, Alloc<int>> E(v.extensions(), 5); E() = v; multi::array<int, D, Alloc<int>> F = E; F.elements()[0] = 9; swap(E, F); mix(std::uint64_t(E.elements()[0])); E = F.rotated(); F = std::move(E); mix(std::uint64_t(std::accumulate(F.elements().begin(), F.elements().end(), 0L))); mix(std::uint64_t(E.num_elements())); E.clear(); F = E; mix(std::uint64_t(F.num_elements()));
